@@ -28,3 +28,20 @@ Proof. exact GoodPathFrom_not_validated. Qed.
 Print Assumptions C02_paths_genuine.
 Print Assumptions C02_no_path_twice.
 Print Assumptions C02_all_genuine_paths_reported.
+
+(* ------------------------------------------------------------------------------------------------------------
+   Extension (second round): renderings (Model/Output.v, Lemmas/OutputLemmas.v) *)
+From Coq Require Import List String.
+From Tealer Require Import Output OutputLemmas.
+
+(* the textual rendering '0 -> 2 -> 5' denotes exactly one block sequence: distinct paths have distinct notations *)
+Theorem C02_short_notation_denotes_the_path : forall l1 l2, short_notation l1 = short_notation l2 -> l1 = l2.
+Proof. exact short_notation_inj. Qed.
+
+(* the JSON listing has one entry per reported path, in order, each with that path's notation *)
+Theorem C02_json_listing : forall t paths,
+  json_count paths = List.length (json_paths t paths) /\ map fst (json_paths t paths) = map short_notation paths.
+Proof. exact json_count_spec. Qed.
+
+Print Assumptions C02_short_notation_denotes_the_path.
+Print Assumptions C02_json_listing.
